@@ -99,4 +99,17 @@ theorem lookup_nulls_isNull (decls : List (String × Ty)) (n : String) :
     simp only [List.mem_map] at this
     obtain ⟨p, _, rfl⟩ := this
     rfl
+/-- The parameter binding loop of `createEnv` binds every parameter to its own argument when the parameter names are distinct. -/
+theorem lookup_bind_mem (binds : List (String × Val)) (hnd : (binds.map (·.1)).Nodup) :
+    ∀ (vars : List (String × Val)) (p : String × Val), p ∈ binds →
+      lookupVar (binds.foldl (fun vs (p : String × Val) => setVar vs p.1 p.2) vars) p.1 = p.2 := by
+  induction binds with
+  | nil => intro vars p hp; cases hp
+  | cons b bs ih =>
+    intro vars p hp
+    simp only [List.map_cons, List.nodup_cons] at hnd
+    simp only [List.foldl_cons]
+    rcases List.mem_cons.mp hp with rfl | hp'
+    · rw [lookup_bind_other bs p.1 hnd.1, lookup_setVar]
+    · exact ih hnd.2 _ p hp'
 end BlocV.Lemmas
